@@ -576,6 +576,9 @@ func (fe *FnExec) doMakeInterface(st *State, x *ssa.MakeInterface) Val {
 	case PtrV:
 		if p.Cell == nil && p.ElemOf == nil {
 			ref = p.Base
+			if ref != "0" {
+				fe.ifaceType[ref] = p.Pointee
+			}
 		}
 	case RefV:
 		// converting a func / map / chan
@@ -706,6 +709,9 @@ func (fe *FnExec) doReturn(fr *frame, st *State, x *ssa.Return) {
 	var rv []Val
 	for _, r := range x.Results {
 		rv = append(rv, fe.val(r))
+	}
+	if !fr.inlined {
+		fe.atReturn(fr, st, x, rv)
 	}
 	fr.rets = append(fr.rets, st.clone())
 	fr.retVals = append(fr.retVals, rv)
